@@ -256,8 +256,11 @@ def _limit_pos(
 
   sensorid = sensor_limitpos_adr[limitposid]
   if efc_id_in[worldid, efcid] == sensor_objid[sensorid]:
-    efc_type = efc_type_in[worldid, efcid]
-    if efc_type == ConstraintType.LIMIT_JOINT or efc_type == ConstraintType.LIMIT_TENDON:
+    # joint k and tendon k share the id k: match the limit kind of the sensor
+    limit_type = ConstraintType.LIMIT_TENDON
+    if sensor_type[sensorid] == SensorType.JOINTLIMITPOS:
+      limit_type = ConstraintType.LIMIT_JOINT
+    if efc_type_in[worldid, efcid] == limit_type:
       val = efc_pos_in[worldid, efcid] - efc_margin_in[worldid, efcid]
       _write_scalar(sensor_type, sensor_datatype, sensor_adr, sensor_cutoff, sensorid, val, sensordata_out[worldid])
 
@@ -1055,8 +1058,11 @@ def _limit_vel(
 
   sensorid = sensor_limitvel_adr[limitvelid]
   if efc_id_in[worldid, efcid] == sensor_objid[sensorid]:
-    efc_type = efc_type_in[worldid, efcid]
-    if efc_type == ConstraintType.LIMIT_JOINT or efc_type == ConstraintType.LIMIT_TENDON:
+    # joint k and tendon k share the id k: match the limit kind of the sensor
+    limit_type = ConstraintType.LIMIT_TENDON
+    if sensor_type[sensorid] == SensorType.JOINTLIMITVEL:
+      limit_type = ConstraintType.LIMIT_JOINT
+    if efc_type_in[worldid, efcid] == limit_type:
       _write_scalar(
         sensor_type, sensor_datatype, sensor_adr, sensor_cutoff, sensorid, efc_vel_in[worldid, efcid], sensordata_out[worldid]
       )
@@ -1667,8 +1673,11 @@ def _limit_frc(
 
   sensorid = sensor_limitfrc_adr[limitfrcid]
   if efc_id_in[worldid, efcid] == sensor_objid[sensorid]:
-    efc_type = efc_type_in[worldid, efcid]
-    if efc_type == ConstraintType.LIMIT_JOINT or efc_type == ConstraintType.LIMIT_TENDON:
+    # joint k and tendon k share the id k: match the limit kind of the sensor
+    limit_type = ConstraintType.LIMIT_TENDON
+    if sensor_type[sensorid] == SensorType.JOINTLIMITFRC:
+      limit_type = ConstraintType.LIMIT_JOINT
+    if efc_type_in[worldid, efcid] == limit_type:
       _write_scalar(
         sensor_type, sensor_datatype, sensor_adr, sensor_cutoff, sensorid, efc_force_in[worldid, efcid], sensordata_out[worldid]
       )
